@@ -525,6 +525,8 @@ def allclose(a, b, rtol=1e-8, atol=None):
         return allclose(pq.Quantity(a), b, rtol=rtol, atol=atol)
     if b.__class__.__name__ == "UncertainQuantity":
         return allclose(a, pq.Quantity(b), rtol=rtol, atol=atol)
+    if atol.__class__.__name__ == "UncertainQuantity":
+        return allclose(a, b, rtol=rtol, atol=pq.Quantity(atol))
 
     try:
         d = abs(a - b)
